@@ -710,6 +710,18 @@ def judge_case(ctx, case, modes, S, Rs, Ms):
     Sj = L.jnum(S)
     for mode, R, M in zip(modes, Rs, Ms):
         sub = dict(case, modes=[mode])
+        routine = {"var": "variable_elasticities", "par": "parameter_elasticities", "resp": "response_coefficients"}[case["what"]]
+        feats = ["runs", "normalized" if case["normalized"] else "unscaled", "to_scan=None" if case["to_scan"] is None else "to_scan-subset",
+                 "variables=None" if case["vars"] is None else "custom-variables"]
+        if case.get("raise"):
+            feats.append("raising")
+        if case.get("mc"):
+            feats.append("samples>processes" if len(case["mc"]["rows"]) > mode[1] else "samples<=processes")
+        elif case["what"] == "resp":
+            feats.append("sequential" if mode[0] == "seq" else "pool")
+        for f in feats:
+            k = f"driver {'mc' if case.get('mc') else 'mca'}.{routine}: {f}"
+            ctx.hist[k] = ctx.hist.get(k, 0) + 1
         Rn = L.snap(S, R, tol)
         Mj = None
         if M is not None:
